@@ -121,6 +121,7 @@ func (dr *DatabaseRecovery) loadWithRetry(primaryPath, personalPath string) (*da
 	var lastErr error
 
 	for attempt := 1; attempt <= dr.retryConfig.MaxAttempts; attempt++ {
+		verifAttempt(attempt)
 		db, err := database.LoadDatabaseWithPersonal(primaryPath, personalPath)
 		if err == nil {
 			return db, nil
@@ -136,6 +137,7 @@ func (dr *DatabaseRecovery) loadWithRetry(primaryPath, personalPath string) (*da
 		// Don't sleep on the last attempt
 		if attempt < dr.retryConfig.MaxAttempts {
 			delay := dr.calculateDelay(attempt)
+			verifDelay(attempt, delay)
 			time.Sleep(delay)
 		}
 	}
